@@ -102,6 +102,9 @@ class PredicatePlan(Plan):
             progs.extend(gen.prog_pred_enum(c, nch, depth=2, limit=60000).text() for c in range(nch))
             exhaustive = True
             rule += "; plus every predicate shape to depth 2 (0-2 operands) over a 5-atom alphabet x 3 rows"
+            if self.with_sql:
+                progs.extend(gen.prog_range_enum(c, nch).text() for c in range(nch))
+                rule += "; plus EVERY range with |start|,|stop| <= 4, 0 < |step| <= 3 against every value -5..5"
         return progs, exhaustive, rule
 
 
@@ -184,6 +187,10 @@ PLANS: dict[str, Plan] = {
                       "trees with doomed/identity leaves, trivially false predicates, zero-limit slices, both "
                       "engines, diagnosed without and with a truthful executor",
                       "the diagnosed tree has at least two node kinds"),
+    "C17": SimplePlan("prog_conform", 800, 20000,
+                      "raw SQL trees assembled bottom-up with the dataclass constructors (no engine), conformed, "
+                      "compiled and run; API-built trees conformed again; every Select of every tree walked",
+                      "a raw (unconformed) tree was conformed"),
     "C20": SimplePlan("prog_illformed", 1000, 25000,
                       "a well-typed multi-engine program plus ONE injected ill-formed request (missing column, "
                       "existing tag, chain column mismatch, engine mismatch, unsupported expression, bad slice) "
